@@ -120,6 +120,57 @@ func (p c10) lazyWrappedCycle(c *core.Ctx) {
 	c.Nontrivial("lazywrapped|" + g.Sc.GraphSig() + fmt.Sprint(plan))
 }
 
+// crowdedDefinitions: components that carry many points of several tag kinds (wire, func, value, prop): the
+// scanners of the different kinds all contribute to one definition; in every run every point is found and
+// populated, whatever the schedule of the parallel scan phase.
+func (p c10) crowdedDefinitions(c *core.Ctx) {
+	g := world.NewG(c.Rng)
+	g.AddNode(0, "pa")
+	g.AddNode(4, "marked") // T04: Mark()
+	g.Sc.Config = "crowd:\n  v: 17\n"
+	nH, nF := 4+c.Rng.Intn(6), 10+c.Rng.Intn(25)
+	mk := func(h int) any {
+		var fields []world.FieldSpec
+		for i := 0; i < nF; i++ {
+			fields = append(fields,
+				world.FieldSpec{Name: fmt.Sprintf("W%dx%d", h, i), Type: world.TypeIA, Tag: `wire:"pa"`},
+				world.FieldSpec{Name: fmt.Sprintf("F%dx%d", h, i), Type: world.TypeAny, Tag: `func:"Mark"`},
+				world.FieldSpec{Name: fmt.Sprintf("V%dx%d", h, i), Type: reflect.TypeOf(0), Tag: `value:"${crowd.v}"`},
+				world.FieldSpec{Name: fmt.Sprintf("P%dx%d", h, i), Type: reflect.TypeOf(0), Tag: `prop:"crowd.v"`})
+		}
+		c.Rng.Shuffle(len(fields), func(i, j int) { fields[i], fields[j] = fields[j], fields[i] })
+		return world.NewHolder(world.BuildStruct(fields))
+	}
+	var types []any
+	for h := 0; h < nH; h++ {
+		types = append(types, mk(h))
+	}
+	for o := 0; o < 5; o++ {
+		g.ShuffleOrders()
+		var holders []any
+		for _, t := range types {
+			holders = append(holders, reflect.New(reflect.TypeOf(t).Elem()).Interface())
+		}
+		r := world.Start(g.Sc, world.Options{Extra: holders, NoTracer: true})
+		c.Count("starts", 1)
+		if r.Outcome() != "ok" {
+			c.Fail("", fmt.Sprintf("%d components with %d points of four tag kinds each: run %d: %s", nH, 4*nF, o, core.Short(r.OutcomeDetail(), 300)), nil)
+			return
+		}
+		for _, h := range holders {
+			hv := reflect.ValueOf(h).Elem()
+			for i := 0; i < hv.NumField(); i++ {
+				if hv.Field(i).IsZero() {
+					c.Fail("", fmt.Sprintf("%d components with %d points of four tag kinds each: in run %d field %s `%s` was not populated (the point was lost between the scanners)", nH, 4*nF, o, hv.Type().Field(i).Name, hv.Type().Field(i).Tag), nil)
+					return
+				}
+			}
+		}
+	}
+	c.Count("family_crowded_definitions", 1)
+	c.Nontrivial(fmt.Sprintf("crowded|%d|%d|%d", nH, nF, c.Index))
+}
+
 // tiedUnnamed: a single-valued point whose best-ranked candidates are several un-named components (a genuine
 // tie) next to named ones and no Primary: whatever the order, it receives one of the tied ones - never a
 // lower-ranked named candidate.
@@ -176,6 +227,10 @@ func (p c10) Run(c *core.Ctx) {
 	}
 	if c.Index%25 == 6 {
 		p.lazyWrappedCycle(c)
+		return
+	}
+	if c.Index%25 == 17 {
+		p.crowdedDefinitions(c)
 		return
 	}
 	orders := tierN(c.Tier, 12, 24)
